@@ -114,7 +114,41 @@ fn random_mat4(rng: &mut Rng) -> Matrix4<f32> {
         }
         m[(i, 3)] = if no_translation { 0.0 } else { rng.uniform(-0.3, 0.3) as f32 };
     }
+    // sometimes a perspective view: the homogeneous weight varies over the
+    // grid (it stays positive: world coordinates are within [-1, 1])
+    if rng.chance(0.15) {
+        let only = if rng.chance(0.4) { Some(rng.below(3)) } else { None };
+        for j in 0..3 {
+            if only.is_none() || only == Some(j) {
+                m[(3, j)] = rng.uniform(-0.2, 0.2) as f32;
+            }
+        }
+    }
     m
+}
+
+/// The first operations (in evaluation order) whose result is NaN although no
+/// operand is: (opcode name, true when an operand is infinite)
+fn nan_origins(ctx: &Context, order: &[Node], q: Point3<f32>) -> Vec<(String, bool)> {
+    use fidget_core::context::Op;
+    let vars: HashMap<Var, f32> = [(Var::X, q.x), (Var::Y, q.y), (Var::Z, q.z)].into_iter().collect();
+    let vals = graph::eval_graph(ctx, order, &vars);
+    let mut out = vec![];
+    for &n in order {
+        if !vals[&n].is_nan() {
+            continue;
+        }
+        let ops: Vec<f32> = match *ctx.get_op(n).unwrap() {
+            Op::Unary(_, a) => vec![vals[&a]],
+            Op::Binary(_, a, b) => vec![vals[&a], vals[&b]],
+            _ => vec![],
+        };
+        if ops.iter().any(|v| v.is_nan()) {
+            continue;
+        }
+        out.push((crate::props::evalutil::op_name(ctx, n), ops.iter().any(|v| v.is_infinite())));
+    }
+    out
 }
 
 fn check_prog(p: &Prog, seed: u64, tier: Tier, st: &mut Stats) -> Option<(String, String, Value)> {
@@ -249,7 +283,17 @@ fn check_with_setup(p: &Prog, su: &Setup, rng: &mut Rng, st: &mut Stats, dual_no
             let px = img[(j as usize, i as usize)];
             judged_cols += 1;
             if px.depth != want {
-                let class = if want == d - 1 && px.depth == d { "top_minus_one" } else if px.depth > want { "too_high" } else { "too_low" };
+                let mut class = if want == d - 1 && px.depth == d { "top_minus_one" } else if px.depth > want { "too_high" } else { "too_low" }.to_string();
+                if px.depth > want && px.depth <= d && vals[px.depth as usize - 1].is_nan() {
+                    // the voxel reported as the surface is NaN: where does
+                    // the NaN come from? Arithmetic on infinite intermediates
+                    // (inf - inf, 0 * inf, inf / inf after an overflow) is a
+                    // NaN that interval arithmetic does not announce
+                    let orig = nan_origins(&b.ctx, &order, pts[px.depth as usize - 1]);
+                    if !orig.is_empty() && orig.iter().all(|(op, inf)| *inf && ["add", "sub", "mul", "div"].contains(&op.as_str())) {
+                        class = "too_high:nan_voxel_from_arithmetic_on_infinities".to_string();
+                    }
+                }
                 return Some((format!("depth:{class}"),
                     format!("pixel ({i},{j}) reports depth {} but the highest negative voxel of its column gives {want} (grid depth {d})", px.depth),
                     json!({"setup": setup_json, "pixel": [i, j], "column_values_from_top": vals[..d as usize].iter().rev().take(6).map(|v| format!("{v:?}")).collect::<Vec<_>>()})));
@@ -260,10 +304,25 @@ fn check_with_setup(p: &Prog, su: &Setup, rng: &mut Rng, st: &mut Stats, dual_no
                 let q = pts[k];
                 // position = (M p) / w; with bottom row (0,0,0,w) the
                 // derivative w.r.t. voxel coordinates is row / w
-                let w = m[(3, 3)] as f64;
-                let mk = |v: f32, row: usize| D { v: v as f64, d: [m[(row, 0)] as f64 / w, m[(row, 1)] as f64 / w, m[(row, 2)] as f64 / w] };
+                // position = (M p) / w with w = row 3 of M applied to p: the
+                // derivative w.r.t. voxel coordinates follows the quotient
+                // rule (for a bottom row (0,0,0,w) it is row / w)
+                let pv = [i as f64, j as f64, k as f64];
+                let lin = |row: usize| (0..3).map(|c| m[(row, c)] as f64 * pv[c]).sum::<f64>() + m[(row, 3)] as f64;
+                let w = lin(3);
+                let mk = |v: f32, row: usize| {
+                    let n = lin(row);
+                    let mut dd = [0f64; 3];
+                    for c in 0..3 {
+                        dd[c] = (m[(row, c)] as f64 * w - n * m[(3, c)] as f64) / (w * w);
+                    }
+                    D { v: v as f64, d: dd }
+                };
+                let perspective = m[(3, 0)] != 0.0 || m[(3, 1)] != 0.0 || m[(3, 2)] != 0.0;
                 let inputs: HashMap<Var, D> = [(Var::X, mk(q.x, 0)), (Var::Y, mk(q.y, 1)), (Var::Z, mk(q.z, 2))].into_iter().collect();
                 let (mut g, mut skip) = dual::eval_graph_dual(&b.ctx, &order, &inputs)[&root];
+                // magnitudes of the chain-rule terms (perspective reference)
+                let mut chain_terms = [0f64; 3];
                 if !dual_normals {
                     // reference: the gradient evaluator of the backend that
                     // rendered, on the original (unsimplified) shape. (What a
@@ -288,8 +347,34 @@ fn check_with_setup(p: &Prog, su: &Setup, rng: &mut Rng, st: &mut Stats, dual_no
                             .ok()?;
                         Some(D { v: o[0].v as f64, d: [o[0].dx as f64, o[0].dy as f64, o[0].dz as f64] })
                     }
+                    // under a perspective view the transform of the seeds is
+                    // itself under test (the quotient rule of the homogeneous
+                    // divide): the backend's gradient evaluator is then used
+                    // without a transform, at the model position with unit
+                    // seeds, and the chain rule is applied here
+                    fn model_gradient<F: Function + MathFunction>(ctx: &Context, root: Node, q: [f32; 3]) -> Option<D> {
+                        let gs = Shape::<F>::new(ctx, root).unwrap();
+                        let gt = gs.grad_slice_tape(Default::default());
+                        let mut gev = Shape::<F>::new_grad_slice_eval();
+                        let o = gev
+                            .eval(&gt, &[Grad::new(q[0], 1.0, 0.0, 0.0)], &[Grad::new(q[1], 0.0, 1.0, 0.0)], &[Grad::new(q[2], 0.0, 0.0, 1.0)])
+                            .ok()?;
+                        Some(D { v: o[0].v as f64, d: [o[0].dx as f64, o[0].dy as f64, o[0].dz as f64] })
+                    }
                     let pos = [i as f32, j as f32, k as f32];
-                    let r = if su.jit { reference::<JitFunction>(&b.ctx, root, pos, &m) } else { reference::<VmFunction>(&b.ctx, root, pos, &m) };
+                    let r = if perspective {
+                        let qm = [q.x, q.y, q.z];
+                        let gm = if su.jit { model_gradient::<JitFunction>(&b.ctx, root, qm) } else { model_gradient::<VmFunction>(&b.ctx, root, qm) };
+                        gm.map(|gm| {
+                            let seeds = [mk(q.x, 0), mk(q.y, 1), mk(q.z, 2)];
+                            let mut out = D { v: gm.v, d: [0.0; 3] };
+                            for c in 0..3 {
+                                out.d[c] = (0..3).map(|r| gm.d[r] * seeds[r].d[c]).sum();
+                                chain_terms[c] = (0..3).map(|r| (gm.d[r] * seeds[r].d[c]).abs()).sum();
+                            }
+                            out
+                        })
+                    } else if su.jit { reference::<JitFunction>(&b.ctx, root, pos, &m) } else { reference::<VmFunction>(&b.ctx, root, pos, &m) };
                     match r {
                         Some(r) => {
                             g = r;
@@ -298,14 +383,17 @@ fn check_with_setup(p: &Prog, su: &Setup, rng: &mut Rng, st: &mut Stats, dual_no
                         None => skip = true,
                     }
                 }
-                if skip || m[(3, 0)] != 0.0 || m[(3, 1)] != 0.0 || m[(3, 2)] != 0.0 {
+                if skip {
                     st.inc("normals_skipped_locus");
                 } else {
                     st.inc("normals_judged");
+                    if perspective {
+                        st.inc("normals_judged_under_perspective");
+                    }
                     let scale = g.d.iter().fold(0f64, |a, x| a.max(x.abs()));
                     for c in 0..3 {
                         let got = px.normal[c] as f64;
-                        if !((got - g.d[c]).abs() <= 1e-3 * scale + 1e-5) {
+                        if !((got - g.d[c]).abs() <= 1e-3 * scale + 1e-5 + 64.0 * f32::EPSILON as f64 * chain_terms[c]) {
                             return Some(("normal".into(),
                                 format!("pixel ({i},{j}) reports normal {:?} but the gradient at its surface voxel is {:?}", px.normal, g.d),
                                 json!({"setup": setup_json, "pixel": [i, j], "surface_voxel": k})));
